@@ -185,12 +185,13 @@ let cmd_divcsr t =
   let nrows = next_int t in
   let rows = List.init nrows (fun _ -> let m = next_int t in
     let ci = next_list t m in let cd = next_list t m in let o = next_list t m in (ci, cd, o)) in
-  let rng = ref (next_list t 3) in
+  let rng = next_list t 3 in
   let dm = next_dm t npts in
-  List.iter (fun (ci, cd, o) ->
-    let (res, rng') = diversify_csr_row dm (nat_of_int npts) tau_rand eps prob use_l ci cd o !rng in
-    rng := rng'; out_list res; out_str ";") rows;
-  out_sep (); out_list !rng
+  (* row i of the prange works on the private state rng_state + i; the shared state is not advanced *)
+  List.iteri (fun i (ci, cd, o) ->
+    let (res, _) = diversify_csr_row dm (nat_of_int npts) tau_rand eps prob use_l ci cd o (row_rng rng (nat_of_int i)) in
+    out_list res; out_str ";") rows;
+  out_sep (); out_list rng
 
 (* prune maxd m data[m] *)
 let cmd_prune t =
